@@ -337,7 +337,27 @@ fn transports(run: &mut Run) {
         }
     }
     let count = |db: &str| (counter_key(&node, db).and_then(|k| k.parse::<i64>().ok()).unwrap_or(0), counter_field(&node, db) as i64);
+    // wait until both databases read `want`, twice in a row 20 ms apart (key and counter field are two reads;
+    // a handler thread that is still working would be caught between them); gives up after 10 s
+    let settle = |want: ((i64, i64), (i64, i64))| -> ((i64, i64), (i64, i64)) {
+        let t0 = std::time::Instant::now();
+        loop {
+            let a = (count("t"), count("u"));
+            if a == want {
+                std::thread::sleep(std::time::Duration::from_millis(20));
+                let b = (count("t"), count("u"));
+                if b == want {
+                    return b;
+                }
+            }
+            if t0.elapsed() > std::time::Duration::from_secs(10) {
+                return a;
+            }
+            std::thread::sleep(std::time::Duration::from_millis(5));
+        }
+    };
     let mut n = 0u64;
+    let mut never_counted = 0u64;
     for sq in seqs.iter() {
         for transport in ["tcp", "http", "websocket"] {
             n += 1;
@@ -393,7 +413,11 @@ fn transports(run: &mut Run) {
                     run.violate(Violation { clause: "connection-count-wrong".into(), shape: format!("{} (open): {}", transport, sq.join(" ; ")), detail: format!("while the connection is open: t {:?} u {:?}, expected {} / {}", mid.0, mid.1, want_t, want_u), replay: json!({"engine":"transport","transport":transport,"commands":sq}) });
                 }
             }
-            let after = (count("t"), count("u"));
+            // (the WebSocket server runs on_close around the closing handshake, not strictly before it)
+            let mut after = (count("t"), count("u"));
+            if after != before {
+                after = settle(before);
+            }
             if after != before {
                 run.violate(Violation { clause: "connection-count-not-restored".into(), shape: format!("{}: {}", transport, sq.join(" ; ")), detail: format!("before {:?}, after the connection ended {:?}", before, after), replay: json!({"engine":"transport","transport":transport,"commands":sq}) });
             }
@@ -418,6 +442,15 @@ fn transports(run: &mut Run) {
                     req.push_str("get big\n");
                 }
                 c.send_raw(req.as_bytes());
+                // the ending comes once the server has counted the session (it is then busy writing the replies);
+                // if it has not within 10 s the case says nothing and is skipped
+                let counted = settle(((before.0 .0 + 1, before.0 .1 + 1), before.1));
+                if counted.0 != (before.0 .0 + 1, before.0 .1 + 1) {
+                    never_counted += 1;
+                    drop(c);
+                    let _ = settle(before);
+                    continue;
+                }
                 match ending {
                     "reset at once" => c.reset(),
                     "reset after 30 ms" => {
@@ -434,11 +467,7 @@ fn transports(run: &mut Run) {
                     }
                 }
                 // the server notices within its poll interval; allow it some time
-                let t0 = std::time::Instant::now();
-                while (count("t"), count("u")) != before && t0.elapsed() < std::time::Duration::from_secs(4) {
-                    std::thread::sleep(std::time::Duration::from_millis(5));
-                }
-                let after = (count("t"), count("u"));
+                let after = settle(before);
                 let panics = crate::world::PANIC_COUNT.load(std::sync::atomic::Ordering::SeqCst);
                 let shape = format!("tcp client that does not read {} big replies: {}", gets, ending);
                 if panics != panics_before {
@@ -447,8 +476,44 @@ fn transports(run: &mut Run) {
                     break;
                 }
                 if after != before {
-                    run.violate(Violation { clause: "connection-count-not-restored".into(), shape, detail: format!("before {:?}, 4 s after the connection ended {:?}", before, after), replay: json!({"engine":"transport","transport":"tcp","ending":ending,"gets":gets}) });
+                    run.violate(Violation { clause: "connection-count-not-restored".into(), shape, detail: format!("before {:?}, 10 s after the connection ended {:?}", before, after), replay: json!({"engine":"transport","transport":"tcp","ending":ending,"gets":gets}) });
                 }
+            }
+        }
+    }
+    // tcp sessions that selected a database and then leave through a read error of the server
+    // rather than a clean end of stream: a line that is not UTF-8, a reset with nothing unread
+    {
+        for ending in ["non-utf8 line, close", "non-utf8 line, reset", "non-utf8 line, use-db u, close", "replies read, reset", "two non-utf8 lines, close"] {
+            n += 1;
+            let before = (count("t"), count("u"));
+            let mut c = tcp.connect();
+            let _ = c.cmd("use-db t tok");
+            let open = (count("t"), count("u"));
+            let shape = format!("tcp session ending with: {}", ending);
+            if open != ((before.0 .0 + 1, before.0 .1 + 1), before.1) {
+                run.violate(Violation { clause: "count-wrong".into(), shape: shape.clone(), detail: format!("before {:?}, with the session open {:?}", before, open), replay: json!({"engine":"transport","transport":"tcp","ending":ending}) });
+            }
+            if ending.contains("non-utf8") {
+                c.send_raw(b"get \xff\xfe\xfd\n");
+                if ending.starts_with("two") {
+                    c.send_raw(b"\xc3\x28 k\n");
+                }
+                std::thread::sleep(std::time::Duration::from_millis(20));
+            }
+            if ending.contains("use-db u") {
+                c.send_raw(b"use-db u tok2\n");
+                std::thread::sleep(std::time::Duration::from_millis(40));
+                let _ = c.read_line_timeout(200);
+            }
+            if ending.ends_with("reset") {
+                c.reset();
+            } else {
+                let _ = c.close_and_wait();
+            }
+            let after = settle(before);
+            if after != before {
+                run.violate(Violation { clause: "connection-count-not-restored".into(), shape, detail: format!("before {:?}, 10 s after the connection ended {:?}", before, after), replay: json!({"engine":"transport","transport":"tcp","ending":ending}) });
             }
         }
     }
@@ -467,13 +532,9 @@ fn transports(run: &mut Run) {
             let frames: Vec<String> = sq.iter().map(|l| l.to_string()).collect();
             let _ = c.frames_until_marker(&frames);
             c.drop_abruptly(ending == "tcp reset");
-            let t0 = std::time::Instant::now();
-            while (count("t"), count("u")) != before && t0.elapsed() < std::time::Duration::from_secs(4) {
-                std::thread::sleep(std::time::Duration::from_millis(5));
-            }
-            let after = (count("t"), count("u"));
+            let after = settle(before);
             if after != before {
-                run.violate(Violation { clause: "connection-count-not-restored".into(), shape: format!("websocket, {}: {}", ending, sq.join(" ; ")), detail: format!("before {:?}, 4 s after the connection vanished {:?}", before, after), replay: json!({"engine":"transport","transport":"websocket","ending":ending,"commands":sq}) });
+                run.violate(Violation { clause: "connection-count-not-restored".into(), shape: format!("websocket, {}: {}", ending, sq.join(" ; ")), detail: format!("before {:?}, 10 s after the connection vanished {:?}", before, after), replay: json!({"engine":"transport","transport":"websocket","ending":ending,"commands":sq}) });
             }
             if ws.service_dead() {
                 run.violate(Violation { clause: "disconnect-failed".into(), shape: format!("websocket, {}: {}", ending, sq.join(" ; ")), detail: "the WebSocket event loop ended".into(), replay: json!({"engine":"transport","transport":"websocket","ending":ending,"commands":sq}) });
@@ -482,6 +543,7 @@ fn transports(run: &mut Run) {
         }
     }
     run.cov("transport_sessions", json!(n));
+    run.cov("transport_sessions_never_counted_within_10s", json!(never_counted));
     run.cov_add("states", n);
     run.cov_add("transitions", n);
     crate::world::set_fallback_ctx(None);
